@@ -71,7 +71,13 @@ class C15(Prop):
             out.count("run_failed")
             return out
         pr = res.probes or []
+        ports = [c["c"]["port"] for c in spec["conns"]]
         for conn, t in zip(spec["conns"], ex["truth"]["conns"]):
+            if ports.count(conn["c"]["port"]) > 1:
+                # the probes name a connection by its client port: two connections with the same port number (other
+                # hosts) cannot be told apart there, their installations are not judged
+                out.count("installation_events_not_attributable_same_client_port")
+                continue
             if conn["proto"] == "tls":
                 mine = [p for p in pr if (p[0] == "keys" and p[1].get("port") == conn["c"]["port"])]
                 if len(spec["conns"]) == 1:
